@@ -40,10 +40,13 @@ type bsys struct {
 	strideOK map[string]bool
 	parLen   [][2]*Term // pairs of slices with equal length (only related when both are queried)
 	bottom   bool       // the system mentions a phi that has no value yet
+	// linear layer: comparisons between arbitrary integer terms, and the +/- nodes known not to wrap around
+	linFacts [][3]int // a, b, strict: a - b (+1) <= 0
+	exact    map[string]bool
 }
 
 func newBsys(fi *FuncInfo) *bsys {
-	s := &bsys{fi: fi, idx: map[string]int{}, axiom: map[string]bool{}, strideOK: map[string]bool{}}
+	s := &bsys{fi: fi, idx: map[string]int{}, axiom: map[string]bool{}, strideOK: map[string]bool{}, exact: map[string]bool{}}
 	s.node(&Term{K: KConst, S: "0"}) // node 0
 	return s
 }
@@ -411,6 +414,7 @@ func (s *bsys) applyArith() {
 				// no wrap-around above: one operand is non-positive, or the sum of the upper bounds fits
 				highOK := ub_ <= 0 || ua <= 0 || (ua < inf && ub_ < inf && ua+ub_ <= thi)
 				if lowOK && highOK {
+					s.exact[t.Key()] = true
 					// t = a + b
 					if cb, ok := constInt64(t.A[1]); ok {
 						s.eq(i, a, cb)
@@ -428,6 +432,7 @@ func (s *bsys) applyArith() {
 					lo = -v
 				}
 				if lo >= tlo && hi <= thi {
+					s.exact[t.Key()] = true
 					if cb, ok := constInt64(t.A[1]); ok {
 						s.eq(i, a, -cb)
 					} else {
@@ -1554,6 +1559,7 @@ func (s *bsys) addFact(f Fact) {
 		switch t.S {
 		case "<":
 			if intOperands() {
+				s.linFacts = append(s.linFacts, [3]int{s.node(t.A[0]), s.node(t.A[1]), 1})
 				s.add(s.node(t.A[0]), s.node(t.A[1]), -1)
 				// stride idiom: i < L/c  =>  c*i + c <= L   (L >= 0, c > 0)
 				if q := t.A[1]; q.K == KBin && q.S == "/" {
@@ -1572,10 +1578,12 @@ func (s *bsys) addFact(f Fact) {
 			}
 		case "<=":
 			if intOperands() {
+				s.linFacts = append(s.linFacts, [3]int{s.node(t.A[0]), s.node(t.A[1]), 0})
 				s.add(s.node(t.A[0]), s.node(t.A[1]), 0)
 			}
 		case "==":
 			if intOperands() {
+				s.linFacts = append(s.linFacts, [3]int{s.node(t.A[0]), s.node(t.A[1]), 0}, [3]int{s.node(t.A[1]), s.node(t.A[0]), 0})
 				s.eq(s.node(t.A[0]), s.node(t.A[1]), 0)
 			}
 			// err == nil postconditions
@@ -1633,6 +1641,112 @@ func (s *bsys) proveLE(x, y int, c int64) bool {
 		a, b := ne[0], ne[1]
 		if c == -1 && ((a == x && b == y) || (a == y && b == x)) && s.diffUB(x, y) <= 0 {
 			return true
+		}
+	}
+	return s.proveLinear(x, y, c)
+}
+
+// ---- linear layer ---------------------------------------------------------------------------------------------
+//
+// A zone relates two terms at a time. Guards written over three quantities (size <= max - need, need + size <= max)
+// are the same inequality over the integers; the linear layer proves a goal x - y <= c when the sum of at most two
+// comparison facts (and known ranges of single terms) is that inequality. A sum or difference is taken apart only
+// where the zone established that it does not wrap around; the outermost sum of the goal's left-hand side may also be
+// taken apart when it cannot wrap below, because the proved mathematical bound (<= a value of the same type) then
+// excludes wrapping above.
+
+type linForm struct {
+	k  int64
+	co map[int]int64
+}
+
+func (f linForm) addScaled(g linForm, m int64) linForm {
+	out := linForm{k: f.k + m*g.k, co: map[int]int64{}}
+	for i, c := range f.co {
+		out.co[i] = c
+	}
+	for i, c := range g.co {
+		out.co[i] += m * c
+		if out.co[i] == 0 {
+			delete(out.co, i)
+		}
+	}
+	return out
+}
+
+func (s *bsys) linOf(i int, goalTop bool, depth int) linForm {
+	t := s.terms[i]
+	if c, ok := constInt64(t); ok && c > -inf && c < inf {
+		return linForm{k: c}
+	}
+	if t.K == KBin && (t.S == "+" || t.S == "-") && len(t.A) == 2 && depth < 6 {
+		ok := s.exact[t.Key()]
+		if !ok && goalTop && t.S == "+" {
+			a, b := s.node(t.A[0]), s.node(t.A[1])
+			ok = s.lb(a) >= 0 || s.lb(b) >= 0
+		}
+		if ok {
+			a := s.linOf(s.node(t.A[0]), false, depth+1)
+			b := s.linOf(s.node(t.A[1]), false, depth+1)
+			if t.S == "+" {
+				return a.addScaled(b, 1)
+			}
+			return a.addScaled(b, -1)
+		}
+	}
+	return linForm{co: map[int]int64{i: 1}}
+}
+
+func (s *bsys) proveLinear(x, y int, c int64) bool {
+	if len(s.linFacts) == 0 || len(s.linFacts) > 200 {
+		return false
+	}
+	// goal: lin(x) - lin(y) - c <= 0
+	goal := s.linOf(x, true, 0).addScaled(s.linOf(y, false, 0), -1)
+	goal.k -= c
+	n := len(s.terms)
+	var facts []linForm
+	for _, f := range s.linFacts {
+		lf := s.linOf(f[0], false, 0).addScaled(s.linOf(f[1], false, 0), -1)
+		lf.k += int64(f[2])
+		facts = append(facts, lf)
+	}
+	if len(s.terms) != n {
+		s.closeAll()
+	}
+	// discharge: what remains of the goal after subtracting the chosen facts must follow from single-term ranges
+	closes := func(rest linForm) bool {
+		// rest: sum co*x + k <= 0 to be shown from ranges: max of the left side
+		tot := rest.k
+		for i, co := range rest.co {
+			if co > 0 {
+				u := s.ub(i)
+				if u >= inf || u > inf/co {
+					return false
+				}
+				tot += co * u
+			} else {
+				l := s.lb(i)
+				if l <= -inf || -l > inf/(-co) {
+					return false
+				}
+				tot += co * l
+			}
+		}
+		return tot <= 0
+	}
+	if closes(goal) {
+		return true
+	}
+	for i := range facts {
+		r1 := goal.addScaled(facts[i], -1)
+		if closes(r1) {
+			return true
+		}
+		for j := i; j < len(facts); j++ {
+			if closes(r1.addScaled(facts[j], -1)) {
+				return true
+			}
 		}
 	}
 	return false
@@ -2090,6 +2204,30 @@ func (fi *FuncInfo) SysForEdge(a, b *ssa.BasicBlock) *Sys {
 		s.addFact(f)
 	}
 	return &Sys{s}
+}
+
+// AddFact adds a fact to the system.
+func (x *Sys) AddFact(f Fact) { x.s.addFact(f) }
+
+// AddEq states that two integer terms are equal (terms of other types are ignored).
+func (x *Sys) AddEq(a, b *Term) {
+	for _, t := range []*Term{a, b} {
+		if _, _, ok := isIntType(t.Typ); !ok && t.K != KConst && t.K != KLen {
+			return
+		}
+		if t.K == KConst {
+			if _, ok := constInt64(t); !ok {
+				return
+			}
+		}
+	}
+	x.s.eq(x.s.node(a), x.s.node(b), 0)
+}
+
+// Inconsistent: the constraints collected so far have no solution (the point is unreachable).
+func (x *Sys) Inconsistent() bool {
+	x.s.closeAll()
+	return x.s.inconsistent()
 }
 
 // ProveGE proves t >= c.
